@@ -192,7 +192,7 @@ F("make_requires", "ipr::Requires", "Requires", "R LVL", "lx.make_requires($1, $
 # ---- statements ----------------------------------------------------------------------------------------------
 F("make_break", "ipr::Break", "Break", "", "lx.make_break()", "from=@stmt", "F 1", "stmt:ST:set:$n->stmt = &$v")
 F("make_continue", "ipr::Continue", "Continue", "", "lx.make_continue()", "iteration=@stmt", "F 1", "stmt:ST:set:$n->stmt = &$v")
-F("make_block", "ipr::Block", "Block", "R OT", "lx.make_block($1, $2)", "handlers=[] body=*stmts", "G? 2",
+F("make_block", "ipr::Block", "Block", "R OT", "lx.make_block($1, $2)", "handlers=^new_handler.1 body=*stmts", "G? 2",
   "stmts:E:push:$n->add_stmt($v)")
 F("new_handler", "ipr::Handler", "Handler", "BLK N T",
   "const_cast<impl::Block&>(dynamic_cast<const impl::Block&>($1)).new_handler($2, $3)",
@@ -335,6 +335,9 @@ def parse_src(src):
         return '[k |-> "optional", v |-> 0, l |-> "%s"]' % src[1:]
     if src.startswith("*"):
         return '[k |-> "pushed", v |-> 0, l |-> "%s"]' % src[1:]
+    if src.startswith("^"):
+        f, i = src[1:].split(".")
+        return '[k |-> "made_with", v |-> %s, l |-> "%s"]' % (i, f)
     if src == "!":
         return '[k |-> "refused", v |-> 0, l |-> ""]'
     if src == "self":
